@@ -232,6 +232,7 @@ static rt::Verdict eval_case(const Case &c, const rt::Args &) {
     return r.run();
 }
 
+#ifndef FUZZ_TARGET
 static rc::Gen<long> gen_size() {
     using namespace rc;
     return gens::weighted<long>({
@@ -293,3 +294,22 @@ int main(int argc, char **argv) {
     E.exhaustive = exhaustive;
     return rcm::run(argc, argv, E);
 }
+#endif // !FUZZ_TARGET
+
+#ifdef FUZZ_TARGET
+#include <fuzzer/FuzzedDataProvider.h>
+extern "C" int LLVMFuzzerTestOneInput(const uint8_t *data, size_t size) {
+    FuzzedDataProvider fdp(data, size);
+    Case c; c.misaligned = fdp.ConsumeBool();
+    while (fdp.remaining_bytes() > 0 && c.ops.size() < 80) {
+        Op o; o.code = fdp.ConsumeIntegralInRange<int>(0, NCODES - 1);
+        if (o.code == NEW) o.a = {fdp.ConsumeIntegralInRange<long>(0, 8192), fdp.ConsumeIntegralInRange<long>(0, 1), fdp.ConsumeIntegralInRange<long>(0, 3)};
+        else o.a = {fdp.ConsumeIntegralInRange<long>(0, 11)};
+        c.ops.push_back(o);
+    }
+    rt::Args a;
+    rt::Verdict v = eval_case(c, a);
+    fuzz_account(to_text(c), v);
+    return 0;
+}
+#endif
